@@ -20,6 +20,12 @@ for num, fn, js, nl, extra in RD:
 for w in (1, 2, 4):
     GROUPS.append(Group(name="C17/write%d.bad_address[bounded]" % (8 * w), unity="C19/u_util.cpp", entry="h_write_bad", functions=[("UtilContext::write%d" % (8 * w), "core/UtilContext.cpp", "harness, bounded")],
                         defines=["WIDTH=%d" % w], unwind=11, checks=CH, timeout=600, bounded="commands '<two letters g..z> 1'"))
+for w, unw in ((8, 132), (16, 68), (32, 36)):
+    g_ = Group(name="C17/print%d[bounded]" % w, unity="C17/u_print.cpp", entry="h_print", functions=[("UtilContext::print%d" % w, "core/UtilContext.cpp", "harness (function text extracted verbatim), bounded")],
+               defines=["PRINTFN=print%d" % w, 'VERIF_PRINT_INC="gen/UtilContext_print%d.inc"' % w, "RANGE=40"], unwind=unw, checks=CH, timeout=900,
+               bounded="address ranges of at most 40 bytes (or the default 128 bytes) anywhere in the 32-bit space, any memory content; the unwinding bound is the termination obligation")
+    g_.unwind_is_spec = True
+    GROUPS.append(g_)
 GROUPS += [g for g in _c19.GROUPS if "get_num" in g.name]
 LEVEL = "proof"
 EXPLANATION = ("DFCC loop contracts on six object-file readers (read_bin, read_ti_txt, read_wdc, read_hex, read_srec, read_uf2) over an unbounded arbitrary file: every loop has a discharged variant "
